@@ -198,6 +198,64 @@ class Tree:
             return True
         return False
 
+    # ------------------------------------------------------------------ target spellings (documented resolution)
+    def _descend(self, start: str, segs) -> Optional[str]:
+        cur = start
+        for k in segs:
+            nxt = None
+            for c in self.nodes[cur].children:
+                if self.nodes[c].key == k:
+                    nxt = c
+                    break
+            if nxt is None:
+                return None
+            cur = nxt
+        return cur
+
+    def resolve_plain(self, src: str, text: str) -> Optional[str]:
+        """Plain identifier: descendant of the reference, else the reference itself if its key
+        matches a single segment, else the same one level up ("bubbling")."""
+        segs = text.split(".")
+        cur: Optional[str] = src
+        while cur is not None:
+            hit = self._descend(cur, segs)
+            if hit is not None:
+                return hit
+            if len(segs) == 1 and self.nodes[cur].key == segs[0]:
+                return cur
+            cur = self.nodes[cur].parent
+        return None
+
+    def resolve_dot(self, src: str, text: str) -> Optional[str]:
+        """Leading-dot relative path: resolved from the source's parent."""
+        base = self.nodes[src].parent or src
+        if text == ".":
+            return base
+        return self._descend(base, text[1:].split("."))
+
+    def spellings(self, src: str, tgt: str, cids: Optional[Dict[str, str]] = None) -> List[str]:
+        """Every spelling that denotes `tgt` from `src` under the documented resolution order."""
+        out = ["#" + tgt]
+        keys = tgt.split(".")[1:]
+        # plain spellings: every suffix of the path
+        for i in range(len(keys)):
+            text = ".".join(keys[i:])
+            if text and self.resolve_plain(src, text) == tgt:
+                # the interpreter also tries the text from the parent and the root; bubbling from the
+                # source already covers those references
+                out.append(text)
+        base = self.nodes[src].parent or src
+        if tgt != base and self.is_proper_desc(tgt, base):
+            rel = tgt[len(base) + 1:]
+            if self.resolve_dot(src, "." + rel) == tgt:
+                out.append("." + rel)
+        for cid, sid in (cids or {}).items():
+            if sid == tgt:
+                out.append("#" + cid)
+            elif self.is_proper_desc(tgt, sid):
+                out.append("#" + cid + "." + tgt[len(sid) + 1:])
+        return out
+
     def has_kind(self, kind: str) -> bool:
         return any(n.kind == kind for n in self.nodes.values())
 
